@@ -354,6 +354,19 @@ fn replacements(c: &Ctx, t: &Trace, a: &Atom, rng: &mut R) -> Vec<(&'static str,
                 v.push(("other-valid-point", b));
             }
             v.push(("identity", if a.kind == Kind::G1 { g1_identity_bytes().to_vec() } else { g2_identity_bytes().to_vec() }));
+            if a.kind == Kind::G1 {
+                // the same point shifted by a point of order 3 (outside the prime-order group): the
+                // challenge acts on that part only modulo 3
+                let mut t3 = [0u8; 48];
+                t3[0] = 0x80;
+                let t3p: Option<bls12_381::G1Affine> = Option::from(bls12_381::G1Affine::from_compressed_unchecked(&t3));
+                let op: Option<bls12_381::G1Affine> = crate::refs::g1(orig);
+                if let (Some(t3p), Some(op)) = (t3p, op) {
+                    use group::Curve;
+                    let shifted = (bls12_381::G1Projective::from(op) + bls12_381::G1Projective::from(t3p)).to_affine();
+                    v.push(("+order-3-point(outside the group)", shifted.to_compressed().to_vec()));
+                }
+            }
             // thorough: the negated point (same x, other sign bit)
             if c.tier.pick(false, true) {
                 let mut b = orig.to_vec();
@@ -616,6 +629,22 @@ fn proof_case<const N: usize>(c: &mut Ctx, ty: Ty, inst: usize) {
         // 2. every atom of the proof replaced in turn
         for a in &honest.atoms {
             if a.kind == Kind::Len {
+                // a response-scalar sequence that announces more elements than the array holds is a changed
+                // field of the proof: it must not decode into something the verifier accepts
+                let n = u64::from_le_bytes(honest.atom_bytes(a).try_into().unwrap_or([0u8; 8]));
+                for (vn, v) in [("n+1", n + 1), ("2n+7", 2 * n + 7), ("2^32", 1u64 << 32), ("2^64-1", u64::MAX)] {
+                    let bytes = honest.with_replaced(a, &v.to_le_bytes());
+                    c.eval();
+                    c.distinct(&key(&format!("{}:length-prefix:{}", a.fpath, vn)));
+                    match lib_verify(ty, &bytes, &params, ch) {
+                        Err(_) => c.count("length_prefix_not_decodable", 1),
+                        Ok(true) => c.violation(
+                            &format!("C11 verifier-accepts-changed-field type={} N={} perturbation=proof-atom:length-prefix:{}", ty.name(), N, vn),
+                            json!({"atom": a.path, "announced": v.to_string(), "base": base_detail.clone()}),
+                        ),
+                        Ok(false) => c.count("length_prefix_decoded_but_rejected", 1),
+                    }
+                }
                 continue;
             }
             let acl = atom_class(a);
@@ -626,7 +655,7 @@ fn proof_case<const N: usize>(c: &mut Ctx, ty: Ty, inst: usize) {
                 tr.bytes = honest.with_replaced(a, &rbytes);
                 match lib_verify(ty, &tr.bytes, &params, ch) {
                     Err(_) => c.count(&format!("replacement_not_decodable[{}:{}]", acl, rname), 1),
-                    Ok(lib) if rname == "+q(non-canonical)" => {
+                    Ok(lib) if rname == "+q(non-canonical)" || rname.starts_with("+order-3-point") => {
                         // a changed field of an accepted proof that still decodes: it must at least be rejected
                         c.eval();
                         c.distinct(&key(&label));
